@@ -183,7 +183,7 @@ type SecureChannel struct {
 	// openingPtrMu guards the openingInstance pointer between open(), which
 	// sets and clears it, and the goroutine that reads chunks.
 	openingPtrMu sync.Mutex
-	openingMu       sync.Mutex
+	openingMu    sync.Mutex
 
 	// recvSeq is the sequence number of the last chunk accepted by readChunk,
 	// recvSeqSet is false until the first chunk was accepted. Both are only
